@@ -52,6 +52,12 @@ add("C49", EX, "All small populations x all partitionings with empty partitions 
     "bounded exhaustive enumeration against a multiset/subsequence oracle")
 add("C50", EX, "Every small file content x delimiter (single, self-overlapping, 2-letter, newline family, 2-byte unicode) x every blocksize x 1-3 files x files_per_partition x include_path is read through the real read_bytes/read_text from memory:// and compared with bytes.join / str.split.", "5/C50", PY_NOTE,
     "bounded exhaustive enumeration of file contents x blocksizes against a plain-Python reference model")
+add("C13", EX, "Bounded-exhaustive pair sweep of a constructed universe of ~334 near-identical collections (arrays, bags, delayed, dataframes, unseeded random) on the real dask.compute path: every pair is computed together (optimize_graph on/off), each member alone, and compared with an eager reference.", "5/C13", PY_NOTE,
+    "small-scope exhaustive enumeration (all pairs/triples of a near-collision universe) against a NumPy/pandas/Python reference")
+add("C14", EX, "Exhaustive enumeration of nested argument templates (depth <= 2, thorough 3) over every container kind the statement names and 7 collection kinds, through compute/persist/optimize under every traverse / optimize_graph / scheduler option; the reference is a structural map with eager values.", "5/C14", PY_NOTE,
+    "small-scope exhaustive template enumeration against a structural reference model")
+add("C15", EX, "Bounded-exhaustive enumeration of delayed expression programs (every operation at level 1, representative-closed deeper levels to depth 3, thorough 4) on the real dask.delayed, each compared with the same AST evaluated eagerly, plus key-determinism, key-injectivity and nout oracles.", "5/C15", PY_NOTE,
+    "small-scope exhaustive program enumeration against an eager Python evaluator")
 
 
 def build():
